@@ -57,6 +57,12 @@ def _list1_factory():
     return [1]
 
 
+def _str_factory(prefix=""):
+    """a factory all of whose parameters have defaults (every model kind calls it without arguments)"""
+    return prefix + ""
+
+
+TYPES["str"]["df"] = _str_factory
 TYPES["nested"]["df"] = _nested_factory
 TYPES["any"]["df"] = _list1_factory
 TYPES["int"]["df"] = int
